@@ -10,8 +10,8 @@ ID = "C04"
 LEVEL = "exploration"
 EXHAUSTIVE = True
 RULE = ("exhaustive: each of the 17 branch mnemonics x every byte distance d in -300..+300 (d measured from .+2) and sob x d in "
-        "-140..+6, each realised in up to twelve shapes (label with filler, label+-k octal / decimal / hex, .+-k, .+-k inside .repeat, "
-        "numeric local label with and without colon, and from an included / second linked file to an exported label); accepted iff d even and within -256..254 (sob: -126..0), both directions asserted; accepted words "
+        "-140..+6, each realised in up to fourteen shapes (label with filler, label+-k octal / decimal / hex, .+-k, .+-k inside .repeat, "
+        "numeric local label with and without colon, local label +- k (the label-fixup reading), and from an included / second linked file to an exported label); accepted iff d even and within -256..254 (sob: -126..0), both directions asserted; accepted words "
         "are read by an independent decoder whose target must equal the source target. random: relative / relative-deferred operands "
         "in first or second position after 0 or 1 extension words, targets anywhere in 64 KiB (labels before/after with filler, "
         "label+-k, .+-k, local labels, bare addresses, wrap-around), link bases anywhere. placement: both parts also put the "
@@ -60,6 +60,13 @@ def branch_program(mn, d, shape, base=None):
         num = {"label-k": f"{abs(k):o}", "label-kdec": f"{abs(k)}.", "label-khex": f"0x{abs(k):x}"}[shape]
         sign = "+" if k >= 0 else "-"
         return f"{head}here:\n\t{mn} {reg}here{sign}{num}\n", 0, B
+    if shape in ("local-k", "local-kdec"):
+        # 'br 1+k': the first number of a complex operand is read as a local label (with a label-fixup warning at the same place
+        # where an out-of-reach error would be reported)
+        kk = d + 4
+        num = f"{abs(kk):o}" if shape == "local-k" else f"{abs(kk)}."
+        sign = "+" if kk >= 0 else "-"
+        return f"{head}anchor:\n1:\tnop\n\t{mn} {reg}1{sign}{num}\n", 2, B + 2
     if shape == "dot-repeat":
         num = f"{abs(k):o}"
         sign = "+" if k >= 0 else "-"
@@ -101,7 +108,7 @@ def branch_program(mn, d, shape, base=None):
     raise ValueError(shape)
 
 
-SHAPES = ["label", "local", "local-colon", "label-k", "label-kdec", "label-khex", "dot", "dot-dec", "dot-repeat", "glob-include", "glob-second", "inner-include"]
+SHAPES = ["label", "local", "local-colon", "label-k", "label-kdec", "label-khex", "dot", "dot-dec", "dot-repeat", "glob-include", "glob-second", "inner-include", "local-k", "local-kdec"]
 
 
 def check_branch(mn, d, shape, base=None):
@@ -388,7 +395,7 @@ def run_shard(spec, ctx):
         mn = spec["mn"]
         for d in range(spec["lo"], spec["hi"] + 1):
             for si, shape in enumerate(SHAPES):
-                base = [None, 0o40000, None, 0, None, 0o157000, None, 0o2000, 0o1000, 0o3000, None, 0o60000][si] if d % 7 == 0 else None
+                base = [None, 0o40000, None, 0, None, 0o157000, None, 0o2000, 0o1000, 0o3000, None, 0o60000, None, 0o4000][si] if d % 7 == 0 else None
                 text, fails = check_branch(mn, d, shape, base)
                 if text is None:
                     continue
